@@ -113,3 +113,16 @@ Theorem C10_F6_before_fix :
   (exists sched, stuck (grun help_transfer_break_before_fix (ginit 1) sched) = true).
 Proof. exact (conj F6_stale_helper_before_fix F6_stuck_before_fix). Qed.
 Print Assumptions C10_F6_before_fix.
+
+(* ---- what an observer of the resize events may rely on: one boolean predicate over the event
+   log of a resize (each bin migrated at most once and only bins of the table; at most one
+   publication, one initiator, one finisher; a published table has received every bin exactly
+   once).  It holds of the log of every reachable configuration of the protocol model, and the same
+   predicate is evaluated inside Coq on the event log the instrumented crate produces for every
+   resize of every scheduled run. *)
+From Flurry Require Import Model.ResizeLog Proofs.ResizeLogProofs.
+Theorem C10_model_logs_ok : forall n ncpu sc0 bins0 k sched,
+  In n table_lengths -> 0 <= sc0 -> length bins0 = Z.to_nat n -> ~ In BFwd bins0 ->
+  ResizeLog.log_ok (Z.to_nat n) (c_log (run n ncpu (init sc0 bins0 k) sched)) = true.
+Proof. exact model_logs_ok. Qed.
+Print Assumptions C10_model_logs_ok.
